@@ -32,6 +32,7 @@ WRAP = ".google.protobuf."
 SIG_WRAPPER = "paging.wrapper_page_size"
 SIG_SHADOW = "paging.max_results_shadows_page_size"
 SIG_LABEL = "paging.repeated_paging_field"
+SIG_MAPIMPORT = "paging.map_value_type_not_imported"
 
 
 # ---------------------------------------------------------------------------------------------- shapes
@@ -317,6 +318,9 @@ def short_shape(shape):
 def report(ctx, pending):
     """Unknown-class violations first (main.py prints at most five replays), known candidate-defect classes last."""
     def emit(sig, what, c):
+        if str(c.get("kind", "")).startswith("drive"):
+            ctx.violation(what, c, sig)
+            return
         case = {"kind": "classify", "req": c["req"], "resp": c["resp"], "impl": c.get("impl")}
         try:
             case["request_b64"] = apigen.req_b64(classify_api([dict(req=c["req"], resp=c["resp"], tags=[])]))
@@ -324,7 +328,15 @@ def report(ctx, pending):
             case["request_error"] = repr(e)
         ctx.violation(what, case, sig)
     seen = set()
-    for sig, what, c in [p for p in pending if p[0] is None][:8]:
+    unknown = [p for p in pending if p[0] is None]
+    cls_first = [p for p in unknown if not str(p[2].get("kind", "")).startswith("drive")][:3]
+    groups = {}
+    for p in unknown:
+        if str(p[2].get("kind", "")).startswith("drive"):
+            key = re.sub(r"[0-9]+|'[^']*'|\[.*?\]", "#", p[1].split(": ", 1)[-1])[:40]
+            groups.setdefault(key, []).append(p)
+    drive_some = [g[0] for g in groups.values()][:4]
+    for sig, what, c in cls_first + drive_some:
         emit(sig, what, c)
     for sig, what, c in [p for p in pending if p[0] is not None]:
         if sig not in seen:
@@ -392,7 +404,8 @@ def library_api(r, transports):
         ("scalar-string", lambda: fld("names", "string", True)),
         ("scalar-int", lambda: fld("numbers", "int64", True)),
         ("map-string-string", lambda: fld("labels", "string", map_=("string", "string"))),
-        ("map-string-message", lambda: fld("by_name", "msg", map_=("string", "msg:" + item.fqn))),
+        # (a map whose value message lives in another file than the response is the known import defect: see witness_map_import)
+        ("map-string-message", lambda: fld("by_name", "msg", map_=("string", "msg:" + shelf.fqn))),
     ]
     rpcs = []
     words = r.sample(RPC_WORDS, r.randint(4, 6))
@@ -691,7 +704,7 @@ def gen_history(r):
 
 
 def nearest_timeout(x):
-    if x is None:
+    if x is None or x > 1e9:      # no deadline
         return None
     best = min(TIMEOUTS, key=lambda t: abs(t - x))
     return best if abs(best - x) < 9.0 else round(x, 1)
@@ -780,7 +793,7 @@ def build_drive_calls(r, D, info, m, kinds):
             else:
                 spec["grpc_script"] = {m["path"]: [{"messages": [dyn.Dyn.b64(x)]} for x in msgs]}
             out.append({"spec": spec, "hist": hist, "kind": kind, "mode": mode, "item": item, "attr_names": attr_names,
-                        "sent": (rq.page_token, None, None), "rq": rq, "md": md, "timeout": timeout, "m": m})
+                        "sent_token": rq.page_token, "sent_filter": rq.filter, "md": md, "timeout": timeout, "m": m})
     return out
 
 
@@ -789,15 +802,15 @@ def eval_drive(ctx, D, info, lib_i, req_b64, call, res, checks, pending):
     m, item, hist, kind, mode = call["m"], call["item"], call["hist"], call["kind"], call["mode"]
     names = call["attr_names"]
     case = {"kind": "drive", "request_b64": req_b64, "info": {k: info[k] for k in ("package", "pypkg", "service", "module", "transports")},
-            "rpc": m["name"], "spec": call["spec"], "history": hist}
+            "rpc": m["name"], "call": {k: v for k, v in call.items() if k != "observed"}}
     label = f"lib#{lib_i} {m['name']} {kind} {mode} pages={[(len(p[0]), p[1]) for p in hist['pages']]} visited={hist['visited']}"
     visited = hist["pages"][: hist["visited"]]
-    ctx.case({"lib": lib_i, "rpc": m["name"], "kind": kind, "mode": mode, "hist": hist, "sent_token": call["sent"][0]},
+    ctx.case({"lib": lib_i, "rpc": m["name"], "kind": kind, "mode": mode, "hist": hist, "sent_token": call["sent_token"]},
              nontrivial=len(visited) > 1 or any(p[0] for p in visited),
              feature=[f"drive-{kind}", f"pages={len(visited)}", f"item-{m['item_kind']}", f"size-{m['size'][0]}:{short(m['size'][1])}",
                       "empty-intermediate-page" if any(not p[0] for p in visited[:-1]) else "no-empty-intermediate",
                       "unreachable-extra-pages" if len(hist["pages"]) > hist["visited"] else "no-extra-pages",
-                      "initial-token" if call["sent"][0] else "no-initial-token"])
+                      "initial-token" if call["sent_token"] else "no-initial-token"])
     if not res.get("ok"):
         pending.append((None, f"{label}: iterating the pager raised {res.get('error')}", case))
         return
@@ -809,15 +822,15 @@ def eval_drive(ctx, D, info, lib_i, req_b64, call, res, checks, pending):
     if kind == "rest":
         calls = [observed_http_call(h, call["md"]) for h in res["http_calls"]]
         first = calls[0] if calls else ("", "", "")
-        first_expected = (call["rq"].page_token, first[1], first[2])
+        first_expected = (call["sent_token"], first[1], first[2])
         q = dict(json.loads(first[1])["query"]) if calls else {}
-        if calls and call["rq"].filter and q.get("filter") != call["rq"].filter:
+        if calls and call["sent_filter"] and q.get("filter") != call["sent_filter"]:
             pending.append((None, f"{label}: first REST call lost the filter field", case))
     else:
         calls = [observed_grpc_call(D, m, g) for g in res["grpc_calls"]]
         sent = D.parse(m["req_fqn"].lstrip("."), call["spec"]["request"]["b64"])
         sent.ClearField("page_token")
-        first_expected = (call["rq"].page_token, canon_item(dyn.Dyn.canon(sent)), None)
+        first_expected = (call["sent_token"], canon_item(dyn.Dyn.canon(sent)), None)
         if calls:
             opts = json.loads(calls[0][2])
             want_md = [list(x) for x in call["md"]]
@@ -868,10 +881,8 @@ def eval_drive(ctx, D, info, lib_i, req_b64, call, res, checks, pending):
             problems.append(f"{len(obs_pages)} pages yielded, {len(visited)} expected")
     fin = out["final"]
     fin_items = fin.get(item["name"], {})
-    if item["map"]:
-        fin_list = sorted(decode_enc(D, {"kind": "list", "items": kv}, item, elem) for kv in fin_items.get("items", [])) if fin_items.get("kind") == "map" else ["<not a map>"]
-    else:
-        fin_list = [decode_enc(D, e, item, elem) for e in fin_items.get("items", [])] if fin_items.get("kind") == "list" else ["<not a list>"]
+    fin_list = [decode_enc(D, e, item, elem) for e in fin_items.get("items", [])] if fin_items.get("kind") == "list" else ["<not a list>"]
+    fin_list = sorted(fin_list) if item["map"] else fin_list
     final_page = (fin_list, (fin.get("next_page_token") or {}).get("value"), attrs_of_snapshot(fin, names[1:]))
     if visited and (final_page[1] != "" or final_page[2] != visited[-1][2] or final_page[0] != visited[-1][0]):
         problems.append(f"after iteration the pager exposes {final_page}, the most recent page is {visited[-1]}")
@@ -954,7 +965,7 @@ def run_libraries(ctx, n, seed_tag="C07-lib", histories=2):
         for c, res in zip(calls, out):
             if c.get("retry"):
                 m, item = c["m"], c["item"]
-                case = {"kind": "drive", "request_b64": b64, "rpc": m["name"], "spec": c["spec"]}
+                case = {"kind": "drive-retry", "request_b64": b64, "rpc": m["name"], "pypkg": info["pypkg"], "spec": c["spec"]}
                 ctx.case({"lib": i, "rpc": m["name"], "kind": c["kind"], "retry": True}, feature=["retry-option-on-follow-up"])
                 if not res.get("ok"):
                     pending.append((None, f"lib#{i} {m['name']} {c['kind']}: caller's retry option did not cover the follow-up page request: {res.get('error')}", case))
@@ -972,7 +983,8 @@ def run_libraries(ctx, n, seed_tag="C07-lib", histories=2):
             if len(obs) == 2 and obs["grpc"] != obs["grpc_asyncio"]:
                 c = group[0]
                 pending.append((None, f"lib#{i} {key[0]}: sync and asyncio pagers disagree on the same history: {obs}",
-                                {"kind": "drive", "request_b64": b64, "rpc": key[0], "spec": c["spec"], "history": c["hist"]}))
+                                {"kind": "drive", "request_b64": b64, "rpc": key[0], "info": {k: info[k] for k in ("package", "pypkg", "service", "module", "transports")},
+                                 "call": {k: v for k, v in c.items() if k != "observed"}}))
         gen.rm(root)
     failing, errors, nfiles = coq.eval_checks("c07lib" + re.sub(r"\W", "", seed_tag), IMPORTS, "", checks)
     ctx.oblige(f"T1+T2 libraries: emitted pager classes / paged branch = model output, and pager runs = Model.iterate "
@@ -982,8 +994,48 @@ def run_libraries(ctx, n, seed_tag="C07-lib", histories=2):
     return pending
 
 
+def witness_map_import(ctx):
+    """Known candidate defect: a paged method whose item field is a map with a message value declared in another file than
+    the response: pagers.py annotates with that module but does not import it. Minimal library, run in every check."""
+    pkg = "google.example.library.v1"
+    second = File("google/example/library/v1/resources.proto", pkg, deps=list(apigen.STD_DEPS))
+    book = second.message("Book").field("name", 1, "string")
+    main = File("google/example/library/v1/service.proto", pkg, deps=list(apigen.STD_DEPS) + [second.proto.name])
+    req_shape = [fld("parent", "string"), fld("page_size", "int32"), fld("page_token", "string")]
+    resp_shape = [fld("by_name", "msg", map_=("string", "msg:" + book.fqn)), fld("next_page_token", "string")]
+    rq, rs = main.message("ListBooksRequest"), main.message("ListBooksResponse")
+    add_fields(rq, req_shape, main)
+    add_fields(rs, resp_shape, main)
+    main.service("Library", host="library.example.com").rpc("ListBooks", rq.fqn, rs.fqn, http=("get", "/v1/{parent=projects/*}/books"))
+    req = apigen.request([second, main], parameter="transport=grpc")
+    res, err = gen.run_generator(req)
+    if res is None:
+        ctx.oblige("witness map-import: generation succeeds", False, err[-400:], "T1")
+        return []
+    root = gen.materialize(res, gen.case_dir("c07mapimport"))
+    D = dyn.Dyn(req)
+    m = {"name": "ListBooks", "snake": "list_books", "req": req_shape, "resp": resp_shape, "req_fqn": rq.fqn, "resp_fqn": rs.fqn,
+         "path": f"/{pkg}.Library/ListBooks", "item_kind": "map-message-other-file", "size": ("page_size", "int32"), "coll": "books"}
+    info = {"package": pkg, "pypkg": "google.example.library_v1", "service": "Library", "module": "library", "transports": "grpc", "rpcs": [m]}
+    calls = build_drive_calls(env.rng("C07-mapimport", 0), D, info, m, ["grpc"])[:1]
+    out = gen.impl("pagedrive", {"root": root, "package": info["pypkg"], "calls": [c["spec"] for c in calls]})
+    gen.rm(root)
+    ctx.case({"witness": "map-import"}, feature=["witness-map-value-other-file"])
+    c, o = calls[0], out[0]
+    case = {"kind": "drive", "request_b64": apigen.req_b64(req), "info": {k: info[k] for k in ("package", "pypkg", "service", "module", "transports")},
+            "rpc": "ListBooks", "call": c}
+    if not o.get("ok"):
+        err = o.get("error", {})
+        sig = SIG_MAPIMPORT if err.get("exception") == "NameError" and "is not defined" in err.get("message", "") else None
+        return [(sig, f"paged method with item field map<string, Book> (Book declared in another file): the emitted library cannot be imported: {err}", case)]
+    checks, pending = [], []
+    eval_drive(ctx, D, info, "map-import", case["request_b64"], c, o, checks, pending)
+    return pending
+
+
 def run(ctx):
     pending = []
+    pending += witness_map_import(ctx)
     cases = load_corpus() + [dict(w) for w in WITNESSES] + classification_cases(env.rng("C07-shapes", 0), ctx.n(120, 2600))
     pending += run_libraries(ctx, ctx.n(6, 60), histories=ctx.n(2, 4))
     pending += run_classification(ctx, cases)
@@ -1011,19 +1063,34 @@ def replay(ctx, rep):
         report(ctx, pending)
         for p in pending:
             print("replay:", p[1])
-    elif c.get("kind") == "drive":
+        if not pending:
+            print("replay: the implementation now agrees with the property's rule on this shape")
+    elif c.get("kind") in ("drive", "drive-retry"):
         req = apigen.req_from_b64(c["request_b64"])
         res, err = gen.run_generator(req)
         if res is None:
             ctx.oblige("replay: generation succeeds", False, err[-600:])
             return
         root = gen.materialize(res, gen.case_dir("c07replay"))
-        pypkg = c["spec"]["request"]["cls"].split(".types:")[0]
-        out = gen.impl("pagedrive", {"root": root, "package": pypkg, "calls": [c["spec"]]})[0]
+        D = dyn.Dyn(req)
+        spec = c["spec"] if c["kind"] == "drive-retry" else c["call"]["spec"]
+        pypkg = c.get("pypkg") or c["info"]["pypkg"]
+        out = gen.impl("pagedrive", {"root": root, "package": pypkg, "calls": [spec]})[0]
         print("replay: what the caller saw:", json.dumps(out.get("result") or out.get("error"))[:1500])
         print("replay: calls at the server:", json.dumps(out.get("grpc_calls") or out.get("http_calls"))[:1500])
-        print("replay: scripted history:", json.dumps(c.get("history"))[:1500])
-        ctx.violation(rep.get("what", "replayed case"), c, rep.get("signature")) if not out.get("ok") else None
-        run(ctx)
+        if c["kind"] == "drive-retry":
+            if not out.get("ok"):
+                ctx.violation(rep.get("what", "retry option lost"), c)
+            return
+        print("replay: scripted history:", json.dumps(c["call"]["hist"])[:1500])
+        checks, pending = [], []
+        eval_drive(ctx, D, c["info"], 0, c["request_b64"], dict(c["call"]), out, checks, pending)
+        failing, errors, _ = coq.eval_checks("c07replay", IMPORTS, "", checks)
+        ctx.oblige("replay: pager run = Model.iterate", not failing and not errors, "; ".join(failing + errors)[:800])
+        report(ctx, pending)
+        for p in pending:
+            print("replay:", p[1])
+        if not pending:
+            print("replay: the oracle no longer fails on this case")
     else:
         run(ctx)
